@@ -37,4 +37,10 @@ CHECKS = {
         "note": "Trusts the list model written from the documented write-mode semantics; extract_time_range/view_field are documented as possible views, independence is not asserted there; one dtype per history.",
         "technique": "stateful model-based property testing (Hypothesis RuleBasedStateMachine) against a list model",
     },
+    "C12": {
+        "text": "Generated grids of every class with widened bounds (1e-6..1e6, negative, 1 cell, holes, periodic flags) and points (centres, faces, corners, inside, far outside by up to 1e6 periods, batches) judged by identities with exact rational references: centres/dx, closed-form cell volumes and their sum, integrate(1[, axes]) and projections preserving integral/average, transform round trips cell/grid/cartesian, containment of generated points, normalize_point (periodic and reflect; idempotence in the quotient, moves by whole periods/reflections only), distance/difference_vector (symmetry, period-shift invariance, half-period bound per periodic Cartesian component incl. the cylinder axis, brute-force minimum over mirror images), coordinate-system mappings. Exploration: held on all generated cases.",
+        "ref": "DESIGN.md section 4, C12",
+        "note": "Tolerances are ulp-based relative to the magnitudes involved; points within 4 ulp*scale of a boundary are excluded from membership assertions; norms below 1e-150 are floored (underflow of hypot).",
+        "technique": "property-based testing of geometric identities and invariants with exact rational reference arithmetic (Hypothesis)",
+    },
 }
